@@ -170,7 +170,7 @@ Bsrai = 0
 Bslli = 0
 
 Idiv = type_a("idiv", 0x12, 0)
-Idivu = type_a("idiv", 0x12, 2)
+Idivu = type_a("idivu", 0x12, 2)
 
 
 # Floating point instructions:
@@ -200,15 +200,15 @@ Xor = type_a("xor", 0x22, 0)
 Andn = type_a("andn", 0x23, 0)
 Pcmpbf = type_a("pcmpbf", 0x20, 0x400)
 Pcmpeq = type_a("pcmpeq", 0x22, 0x400)
-Pcmpne = type_a("pcmpeq", 0x23, 0x400)
+Pcmpne = type_a("pcmpne", 0x23, 0x400)
 
 Sra = type_b("sra", 0x24, imm=0x1)
-Src = type_b("sra", 0x24, imm=0x21)
-Srl = type_b("sra", 0x24, imm=0x41)
+Src = type_b("src", 0x24, imm=0x21)
+Srl = type_b("srl", 0x24, imm=0x41)
 Sext8 = type_b("sext8", 0x24, imm=0x60)
 Sext16 = type_b("sext16", 0x24, imm=0x61)
 Wic = type_a("wic", 0x24, 0x68, rd=0)
-Wdc = type_a("wic", 0x24, 0x64, rd=0)
+Wdc = type_a("wdc", 0x24, 0x64, rd=0)
 
 Br = type_a("br", 0x26, 0, rd=0, ra=0x0)
 Brd = type_a("brd", 0x26, 0, rd=0, ra=0x10)
@@ -239,7 +239,7 @@ Andni = type_b("andni", 0x2B)
 Imm = type_b("imm", 0x2C, rd=0, ra=0)
 
 Rtsd = type_b("rtsd", 0x2D, rd=0x10)
-Rtid = type_b("rtsd", 0x2D, rd=0x11)
+Rtid = type_b("rtid", 0x2D, rd=0x11)
 Rtbd = type_b("rtbd", 0x2D, rd=0x12)
 Rted = type_b("rted", 0x2D, rd=0x14)
 
